@@ -1294,7 +1294,7 @@ func (s *c15Search) isRemoteElem(v ssa.Value) bool {
 type c15Leaf struct {
 	fn    *ssa.Function
 	rc    ReturnCase
-	konst *bool  // constant result; nil: computed (Facts then include "result is true")
+	konst *bool // constant result; nil: computed (Facts then include "result is true")
 	facts []Fact
 }
 
